@@ -62,6 +62,30 @@ fn case_in_worker(o: &Opts, src: &Src, reps: usize, threads: usize) -> String {
             }
         }
     }
+    // one tree rendered twice, by every writer and in another order (a writer must not change what it renders)
+    {
+        let c = o.to_comrak();
+        let twice = src.with_root(o, |root| {
+            let mut outs: Vec<Vec<u8>> = vec![];
+            for which in [2usize, 0, 1, 2, 0] {
+                let mut b = Vec::new();
+                match which {
+                    0 => format_html(root, &c, &mut b).unwrap(),
+                    1 => format_xml(root, &c, &mut b).unwrap(),
+                    _ => format_commonmark(root, &c, &mut b).unwrap(),
+                };
+                outs.push(b);
+            }
+            outs
+        });
+        if let Ok(outs) = twice {
+            for (k, which) in [2usize, 0, 1, 2, 0].iter().enumerate() {
+                if outs[k] != first[*which] {
+                    return format!("differs\tsame-tree-rendered-again-differs\t{}\t{}", sig_for(*which, &first[*which], &outs[k]), diff_window(&first[*which], &outs[k]));
+                }
+            }
+        }
+    }
     if threads > 0 {
         let c = o.to_comrak();
         let barrier = std::sync::Barrier::new(threads);
